@@ -474,7 +474,8 @@ class MTar:
         if mode.startswith("w"):
             CUR.step("tar-open", self.name)
             CUR._need_parent(self.name)
-            CUR.files[self.name] = Tar()
+            self.obj = Tar()
+            CUR.files[self.name] = self.obj
             CUR._w("tar-open", self.name)
         else:
             CUR.step("tar-read", self.name)
@@ -483,10 +484,12 @@ class MTar:
                 raise FileNotFoundError(2, "No such file or directory (model)", self.name)
             if not isinstance(c, Tar) or (not c.members and not c.complete):
                 raise _tarfile.ReadError("file could not be opened successfully (model)")
+            self.obj = c
 
     @property
     def tar(self):
-        return CUR.files[self.name]
+        # the open file (inode), wherever a rename has moved it meanwhile -- or nowhere after an unlink
+        return self.obj
 
     def __enter__(self):
         return self
@@ -759,7 +762,7 @@ def encoded_functions():
 # ---------------------------------------------------------------------------
 # cards used by every scenario (real objects)
 # ---------------------------------------------------------------------------
-def example_cards():
+def example_cards(mugrid=None):
     from ekobox import cards
     from eko import interpolation
 
@@ -767,9 +770,17 @@ def example_cards():
     opc = cards.example.operator()
     opc.xgrid = interpolation.XGrid([0.1, 0.5, 1.0])
     opc.configs.interpolation_polynomial_degree = 1
-    opc.mugrid = [(10.0, 5)]
+    opc.mugrid = list(mugrid) if mugrid is not None else [(10.0, 5)]
     th.order = (1, 0)
     return th, opc
+
+
+SOLVE_MUGRID = [(10.0, 5), (20.0, 5), (3.0, 4)]  # three evolution points, two flavour-number schemes
+
+
+def solve_cards():
+    """the cards of the managed.solve scenario: several evolution points, so that 'after the first stored operator' exists"""
+    return example_cards(SOLVE_MUGRID)
 
 
 KEYS = [(100.0, 5), (400.0, 5), (900.0, 6)]
@@ -796,7 +807,7 @@ class Injector:
             return False
         rel = f["rel"]
         p = str(path) if path is not None else ""
-        if kind == "mkdtemp":
+        if kind == "mkdtemp" or rel == "*":
             ok = True
         elif rel == "<tmp>":
             ok = posixpath.basename(p.rstrip("/")).startswith("eko-")
@@ -1141,7 +1152,7 @@ def session_edit(world, ops):
 def session_solve(world, ops=()):
     from eko.runner import managed
 
-    th, opc = example_cards()
+    th, opc = solve_cards()
     managed.solve(th, opc, world.path)
 
 
